@@ -25,7 +25,7 @@ ASSUMPTIONS = ['ids, durations and timestamps are excluded from the comparison w
 
 KINDS = ['success', 'raises', 'interrupt', 'interrupt_in_body', 'discarded', 'sampled_out', 'forced', 'handler_fault', 'key_fault', 'save_fails', 'kill_switch',
          'replay_ok', 'replay_missing_id', 'replay_missing_key', 'replay_fn_raises', 'replay_fn_interrupted', 'replay_imported',
-         'noop_discard', 'double_discard', 'equal_hash_args', 'forced_discarded', 'nested_play_discards_outer', 'replay_outputs_post_processed', 'context_kept_by_an_input']
+         'raises_unencodable', 'noop_discard', 'double_discard', 'equal_hash_args', 'forced_discarded', 'nested_play_discards_outer', 'replay_outputs_post_processed', 'context_kept_by_an_input']
 
 
 def hist_program(seed):
@@ -98,10 +98,12 @@ def do_element(ctx, sess, kind, seed, w):
     from playback.exceptions import TapeRecorderException
     prog = hist_program(seed)
     rec = sess.rec
-    if kind in ('success', 'raises', 'interrupt', 'interrupt_in_body', 'discarded', 'sampled_out', 'forced', 'handler_fault', 'key_fault', 'save_fails', 'kill_switch'):
+    if kind in ('success', 'raises', 'raises_unencodable', 'interrupt', 'interrupt_in_body', 'discarded', 'sampled_out', 'forced', 'handler_fault', 'key_fault', 'save_fails', 'kill_switch'):
         faults, cfg = {}, {}
         if kind == 'raises':
             faults = {('main', 2): 'raise_user'}
+        elif kind == 'raises_unencodable':
+            faults = {('main', 2): 'raise_user_unencodable'}      # same exception class, but this instance carries a live resource
         elif kind == 'interrupt':
             faults = {('main', 3): 'raise_interrupt'}
         elif kind == 'interrupt_in_body':
@@ -226,10 +228,11 @@ def probe(ctx, rec, spy, box, which, seed, replay_source=None, builts=None):
         b = (builts or {}).get((seed, 0))
         res = fr.execute(prog, {}, recorder=rec, spy=spy, box=box, with_twin=False, rate=0, built=b)
         return ('rate0', [e[0] for e in res.spy_events if e[0] in ('create', 'save', 'abort')], repr(res.outcome))
-    if which == 'record':
-        res = fr.execute(prog, {}, recorder=rec, spy=spy, box=box, with_twin=False)
+    if which in ('record', 'record_raises', 'record_raises_unencodable'):
+        pf = {'record': {}, 'record_raises': {('main', 2): 'raise_user'}, 'record_raises_unencodable': {('main', 2): 'raise_user_unencodable'}}[which]
+        res = fr.execute(prog, pf, recorder=rec, spy=spy, box=box, with_twin=False)
         saves = [e for e in res.spy_events if e[0] == 'save']
-        if len(saves) != 1:
+        if len(saves) != 1 or any(e[0] == 'save_failed' for e in res.spy_events):
             return ('not-saved', len(saves), [e[0] for e in res.spy_events])
         got = box.reader().get_recording(saves[0][2])
         data = {k: got.get_data(k) for k in got.get_all_keys()}
@@ -304,11 +307,69 @@ def run_history(ctx, kinds, which, kind_cassette, seed):
         fresh.enable_recording()
         exp = probe(ctx, fresh, spy2, sess.box, which, pseed, src)
         ctx.count('probes_compared')
+        if which != 'replay' and (which.startswith('record_raises') or ctx.counters['probes_compared'] % 16 == 0):
+            # ... and on a fresh recorder in a FRESH PROCESS (what is process-wide is shared by every recorder of this process)
+            from vlib.programs import canon
+            XPROC.append(((which, pseed, kind_cassette), canon(got), w))
         if not teq(got, exp):
             ctx.violation('probe (%s) after history %s differs from the same probe on a fresh recorder' % (which, kinds),
                           dict(w, got=repr(got)[:600], fresh=repr(exp)[:600]))
     finally:
         sess.close()
+
+
+XPROC = []
+
+
+def reference_main():
+    """Runs in a fresh process: every requested probe on a fresh recorder; prints the canonical summaries."""
+    import json
+    import sys
+    from playback.tape_recorder import TapeRecorder
+    from vlib.programs import canon
+    out = []
+    for which, pseed, kind in json.loads(sys.stdin.read()):
+        with open_box(kind) as box:
+            spy = SpyCassette(box.cassette)
+            rec = TapeRecorder(spy)
+            rec._random = SpyRandom(11)
+            rec.enable_recording()
+            out.append(canon(probe(None, rec, spy, box, which, pseed)))
+    print('REFERENCE ' + json.dumps(out))
+
+
+def compare_with_fresh_process(ctx):
+    import json
+    import os
+    import subprocess
+    import sys
+    if not XPROC:
+        return
+    # one fresh process per probe kind (probes of different kinds in one process would give that process a history of its own)
+    code = "import sys; sys.path.insert(0, %r); from vlib import env; env.bootstrap(); from checks import C09; C09.reference_main()" % env.VERIF
+    ref = {}
+    procs = []
+    for which in sorted(set(x[0][0] for x in XPROC)):
+        reqs = sorted(set(x[0] for x in XPROC if x[0][0] == which))
+        p = subprocess.Popen([sys.executable, '-c', code], stdin=subprocess.PIPE, stdout=subprocess.PIPE, stderr=subprocess.PIPE, text=True,
+                             env=dict(os.environ, VERIF_REPO=env.REPO, PYTHONHASHSEED='0'))
+        procs.append((p, reqs))
+    try:
+        for p, reqs in procs:
+            so, se = p.communicate(json.dumps(reqs), timeout=900)
+            line = [l for l in so.splitlines() if l.startswith('REFERENCE ')][-1]
+            ref.update(zip(reqs, json.loads(line[len('REFERENCE '):])))
+    except Exception as ex:
+        for p, _ in procs:
+            p.kill()
+        ctx.inconclusive('reference probes in a fresh process failed: %r' % (ex,))
+        return
+    for key, got, w in XPROC:
+        ctx.count('probes_compared_with_a_fresh_process')
+        if got != ref[key]:
+            ctx.violation('probe (%s) after history %s differs from the same probe on a fresh recorder in a fresh process' % (key[0], w['history']),
+                          dict(w, got=got[:500], fresh_process=ref[key][:500]))
+    del XPROC[:]
 
 
 def run(ctx):
@@ -319,11 +380,19 @@ def run(ctx):
             if ctx.mine(idx):
                 run_history(ctx, [a, b], which, ('memory', 'file', 's3')[idx % 3], 1000 + idx)
     ctx.note('length2_histories_exhaustive', True)
+    # operations that fail, probed after histories in which the same exception class was seen in its other form
+    for hi, hist in enumerate([['raises'], ['raises_unencodable'], ['raises', 'raises_unencodable'], ['raises_unencodable', 'raises'], ['success'],
+                               ['raises', 'replay_ok', 'raises'], ['raises_unencodable', 'discarded', 'raises_unencodable']]):
+        for which in ('record_raises', 'record_raises_unencodable'):
+            idx += 1
+            if ctx.mine(idx):
+                run_history(ctx, hist, which, ('memory', 'file', 's3')[idx % 3], 4000 + hi)
     n = ctx.budget(300, 20000)
     rng = ctx.rng
     for i in range(n):
         kinds = [rng.choice(KINDS) for _ in range(rng.randrange(1, 9))]
         run_history(ctx, kinds, rng.choice(['record', 'replay', 'record_rate0']), rng.choice(['memory', 'memory', 'file', 's3']), rng.randrange(1 << 20))
+    compare_with_fresh_process(ctx)
     if not ctx.quick and ctx.shard == 0:
         # auxiliary workload: the repository's own tests with the idle predicates evaluated at every test teardown
         from vlib.repo_tests import run_under_monitors
@@ -342,3 +411,4 @@ def run(ctx):
 
 def replay(ctx, w):
     run_history(ctx, w['history'], w['probe'], w['cassette'], w['seed'])
+    compare_with_fresh_process(ctx)
